@@ -6,7 +6,7 @@
      F name\x1ftext            contents of a configuration file
      E w1\x1fw2...             one script call (exec): prints "<outcome> <bodyclass> | cvs | biases"
      C text                    engine-side configuration (do_event EConfig)
-     X                         a step (do_event EStep)
+     X [0|1]                   a step (0: it returned an error) with the observation registered by the preceding O lines
      W                         table_wf and state_wf
      K name                    entry_class / is_pseudo / the witness command line of a table entry
      G id:x:y:z id:x:y:z|...   groups ('|' between groups) of (atom id, contribution as three hex floats) in listing order:
@@ -122,7 +122,7 @@ let () =
         let md = match !ob_mod with Some m -> m | None ->
           { md_step = Z0; md_energy = nan; md_ids = []; md_masses = []; md_charges = []; md_pos = []; md_af = []; md_tf = [] } in
         let had = !ob_mod <> None in
-        sem := do_sevent !tbl parse_conf read_file !sem (SStep { ob_mod = md; ob_cv = !ob_cv; ob_bias = !ob_bias });
+        sem := do_sevent !tbl parse_conf read_file !sem (SStep { ob_ok = (rest <> "0"); ob_mod = md; ob_cv = !ob_cv; ob_bias = !ob_bias });
         if not had then sem := { !sem with sm_mod = None };
         ob_mod := None; ob_cv := []; ob_bias := [];
         Printf.printf "step | %s\n" (show_state !st)
